@@ -54,7 +54,7 @@ struct ListWorld : World {
         if (k == K_LIST) {
             if (mtm) op.k = wpick(r, {{35, L_ADD}, {15, L_GET}, {25, L_POP}, {8, L_REMOVE}, {3, L_CLEAR}, {6, L_TOARRAY}, {4, L_TOSTRING}, {4, L_LOCKEDWALK}});
             else op.k = wpick(r, {{34, L_ADD}, {14, L_GET}, {12, L_POP}, {10, L_REMOVE}, {4, L_REVERSE}, {1, L_CLEAR}, {4, L_SETSIZE}, {4, L_SIZE}, {3, L_DATASIZE},
-                                  {5, L_TOARRAY}, {5, L_TOSTRING}, {4, L_WALK}, {c14 ? 3 : 0, L_DEBUG}});
+                                  {5, L_TOARRAY}, {5, L_TOSTRING}, {4, L_WALK}, {c14 ? 3 : 0, L_DEBUG}, {c14 ? 5 : 0, L_LOCKEDWALK}});
         } else if (k == K_GROW) {
             op.k = wpick(r, {{50, L_ADD}, {8, L_SIZE}, {8, L_DATASIZE}, {14, L_TOARRAY}, {14, L_TOSTRING}, {3, L_CLEAR}, {c14 ? 3 : 0, L_DEBUG}});
         } else {
@@ -127,7 +127,7 @@ struct ListWorld : World {
     }
     void sut_abandon() override { l = nullptr; qq = nullptr; qs = nullptr; qg = nullptr; }
     void *sut_mutex() override { return base()->qmutex; }
-    void sut_force_unlock() override { InSut s; base()->unlock(base()); }
+    void sut_force_unlock() override { InSutLock s; base()->unlock(base()); }
     void sut_probe(Ctx &) override { InSut s; qlist_t *b = base(); b->getat(b, 0, nullptr, false); }
 
     Result take(void *p, size_t sz, bool held, Ctx &x, const char *what) {
@@ -227,7 +227,7 @@ struct ListWorld : World {
         }
         case L_WALK: case L_LOCKEDWALK: {
             bool newmem = op.d & NEWMEM;
-            if (op.k == L_LOCKEDWALK) { InSut s; l->lock(l); }
+            if (op.k == L_LOCKEDWALK) { InSutLock s; l->lock(l); }
             qlist_obj_t o; memset(&o, 0, sizeof o);
             Bytes out; size_t cnt = 0, guard = b->num * 2 + 8; bool failed = false;
             for (;;) {
@@ -236,9 +236,9 @@ struct ListWorld : World {
                 Bytes e((const char *)o.data, o.size);
                 if (newmem) x.hold(o.data, e, "list.getnext(newmem)");
                 enc(out, e);
-                if (++cnt > guard) { if (op.k == L_LOCKEDWALK) { InSut s; l->unlock(l); } x.fail("walk-mismatch", "result", "walk does not end"); }
+                if (++cnt > guard) { if (op.k == L_LOCKEDWALK) { InSutLock s; l->unlock(l); } x.fail("walk-mismatch", "result", "walk does not end"); }
             }
-            if (op.k == L_LOCKEDWALK) { InSut s; l->unlock(l); }
+            if (op.k == L_LOCKEDWALK) { InSutLock s; l->unlock(l); }
             return failed ? R_fail(out) : R_ok(out + "$");
         }
         case L_DEBUG: {
